@@ -301,6 +301,11 @@ pub struct Driver {
     /// Latest finalised height, -1 if none.
     pub height: i64,
     pub committed: i64,
+    /// The ops of `cur` at the last accepted commit (signed transactions parked in the open block; a
+    /// commit is only accepted while nothing was executed in it): they are on disk, a clearCaches or
+    /// restart brings the open block back to exactly them.
+    pub committed_parked: Vec<Op>,
+    pub committed_parked_resp: Vec<Resp>,
     /// Highest block ever finalised on this directory.
     pub max_ever: i64,
     pub record: bool,
@@ -319,6 +324,8 @@ impl Driver {
             open: None,
             height: -1,
             committed: -1,
+            committed_parked: Vec::new(),
+            committed_parked_resp: Vec::new(),
             max_ever: -1,
             record: true,
         }
@@ -410,6 +417,8 @@ impl Driver {
             Op::Commit => {
                 if ok {
                     self.committed = self.height;
+                    self.committed_parked = self.cur.clone();
+                    self.committed_parked_resp = self.cur_resp.clone();
                 }
             }
             Op::Clear | Op::Reopen => {
@@ -417,8 +426,9 @@ impl Driver {
                     self.height = self.committed;
                     self.chain.truncate((self.committed + 1) as usize);
                     self.chain_resp.truncate((self.committed + 1) as usize);
-                    self.cur.clear();
-                    self.cur_resp.clear();
+                    // transactions parked before the last commit were written out with it
+                    self.cur = self.committed_parked.clone();
+                    self.cur_resp = self.committed_parked_resp.clone();
                     self.ntx = 0;
                     self.open = None;
                 }
@@ -433,6 +443,8 @@ impl Driver {
                     self.committed = self.height;
                     self.cur.clear();
                     self.cur_resp.clear();
+                    self.committed_parked.clear();
+                    self.committed_parked_resp.clear();
                     self.ntx = 0;
                     self.open = None;
                 }
@@ -454,6 +466,14 @@ impl Driver {
             }
             out.push(op.clone());
         }
+        out
+    }
+
+    /// Everything the last accepted commit wrote out: the chain up to the committed height plus the
+    /// signed transactions that were parked in the open block at that commit.
+    pub fn committed_ops(&self) -> Vec<Op> {
+        let mut out = if self.committed >= 0 { self.prefix_ops(self.committed as u64) } else { Vec::new() };
+        out.extend(self.committed_parked.iter().cloned());
         out
     }
 
